@@ -5172,6 +5172,23 @@ where
                 tds.assign_neighbors().map_err(de::Error::custom)?;
                 tds.assign_incident_cells().map_err(de::Error::custom)?;
 
+                // Reject input that does not describe a structurally consistent complex: element
+                // validity (finite coordinates, non-nil UUIDs, exactly D+1 distinct vertices per
+                // cell), UUID <-> key bijections (duplicate vertex or cell UUIDs), duplicate cells
+                // and over-shared facets. (Slot order, i.e. coherent orientation, is left to
+                // `is_valid()` / `validate()`.)
+                for (_, vertex) in &tds.vertices {
+                    (*vertex).is_valid().map_err(de::Error::custom)?;
+                }
+                for (_, cell) in &tds.cells {
+                    cell.is_valid().map_err(de::Error::custom)?;
+                }
+                tds.validate_vertex_mappings().map_err(de::Error::custom)?;
+                tds.validate_cell_mappings().map_err(de::Error::custom)?;
+                tds.validate_no_duplicate_cells()
+                    .map_err(de::Error::custom)?;
+                tds.validate_facet_sharing().map_err(de::Error::custom)?;
+
                 Ok(tds)
             }
         }
